@@ -87,6 +87,28 @@ type schedAttrs map[string]bool
 
 // runSched runs the real scheduler on graph (n, edges) with the given stage attributes
 // under the given priority orders; returns the first violation found ("" if none).
+// slowConditions: stage conditions take ~120 ms (longer than the scheduler's 50 ms pause), so that
+// a scheduler that mishandles a condition still being evaluated shows it.
+var slowConditions = ""
+
+func condCommand(truth bool) string {
+	if slowConditions == "" {
+		if truth {
+			return "true"
+		}
+		return "false"
+	}
+	name := slowConditions + "/cond-false.sh"
+	code := 1
+	if truth {
+		name, code = slowConditions+"/cond-true.sh", 0
+	}
+	if _, err := os.Stat(name); err != nil {
+		os.WriteFile(name, []byte(fmt.Sprintf("#!/bin/sh\nsleep 0.12\nexit %d\n", code)), 0o755)
+	}
+	return name
+}
+
 func runSched(n, edges int, b func(string) bool, prios [][]int) (string, bool) {
 	names := []string{"a", "b", "c", "d"}[:n]
 	dep := make([][]int, n)
@@ -158,11 +180,7 @@ func runSched(n, edges int, b func(string) bool, prios [][]int) (string, bool) {
 			tk.Name = nm
 			s := &Stage{Name: nm, Task: tk, AllowFailure: b("allow." + nm)}
 			if b("has-condition." + nm) {
-				if b("condition-true." + nm) {
-					s.Condition = "true"
-				} else {
-					s.Condition = "false"
-				}
+				s.Condition = condCommand(b("condition-true." + nm))
 			}
 			for _, d := range dep[j] {
 				s.DependsOn = append(s.DependsOn, names[d])
@@ -296,6 +314,15 @@ func TestVerifReplaySched(t *testing.T) {
 	}
 	n, edges := int(sc.Args[0]), int(sc.Args[1])
 	b := func(k string) bool { v, _ := sc.Inputs[k].(bool); return v }
+	// the scenario itself is run twice: with instantaneous and with slow (120 ms) stage conditions
+	if os.Getenv("VERIF_WITNESS") == "" {
+		slowConditions = t.TempDir()
+		if v, _ := runSched(n, edges, b, permutations(n)[:1]); v != "" {
+			fmt.Println("REPLAY: reproduced (stage conditions taking 120 ms):", v)
+			return
+		}
+		slowConditions = ""
+	}
 	if v, ok := runSched(n, edges, b, permutations(n)); v != "" {
 		fmt.Println("REPLAY: reproduced:", v)
 		return
